@@ -73,7 +73,7 @@ pub fn gen(r: &mut Rng) -> Value {
             15 => "halterr",
             _ => "nocmd",
         };
-        let val = match r.below(7) { 0 => "-", 1 => "0", 2 => "7", 3 => "x", 4 => "${v0}", 5 => "-3", _ => "CRASHME" };
+        let val = match r.below(8) { 0 => "-", 1 => "0", 2 => "7", 3 => "x", 4 => "${v0}", 5 => "-3", 6 => "\\${v0}", _ => "CRASHME" };
         let target = if kind == "gotol" { json!(r.pick(&[":a", ":b", ":c", ":zz"])) } else { json!(r.below(n + 2).to_string()) };
         lines.push(json!({"label": label, "out": out, "kind": kind, "val": val, "target": target}));
     }
@@ -154,7 +154,8 @@ pub fn run(input: &Value) -> Option<Value> {
             break;
         }
         let expand = |s: &str, vars: &BTreeMap<String, String>| -> String {
-            if s == "${v0}" { vars.get("v0").cloned().unwrap_or_default() } else { s.to_string() }
+            // `\${v0}` is the documented escape: the command receives the literal text ${v0}
+            if s == "${v0}" { vars.get("v0").cloned().unwrap_or_default() } else if s == "\\${v0}" { "${v0}".to_string() } else { s.to_string() }
         };
         let raw_val = l["val"].as_str()?;
         let val_arg = expand(raw_val, &vars);
